@@ -13,7 +13,7 @@ ANCHORS = ["pyoma2.functions.gen:merge_mode_shapes", "pyoma2.functions.gen:MSF",
 REQUIRED_MONITORS = ["merge-is-repeatable", "merge@function", "merge@PoSER.synthetic", "merge@PoSER.ssi", "stats@PoSER", "roworder@flatten", "two-campaigns", "names@PoSER.def_geo1"]
 ALL_STATES = ["factors:generic", "factors:+-1 only", "entries:real", "entries:complex", "rov:some setup has none",
               "refs:permuted differently per setup", "nref=1", "nref>1"]
-REQUIRED_STATES = ["factors:generic", "entries:complex", "refs:permuted differently per setup", "global shapes of magnitude < 1e-3", "result object replaced after construction", "two modes with the same frequency", "geometry names from setups of different channel counts"]
+REQUIRED_STATES = ["factors:generic", "entries:complex", "refs:permuted differently per setup", "global shapes of magnitude < 1e-3", "result object replaced after construction", "two modes with the same frequency", "geometry names from setups of different channel counts", "a reference sensor on a node of a mode"]
 RULE = ("global matrices G (1..8 modes, real/complex), 2..5 setups, 1..4 references, 0..5 roving per setup, channel lists randomly "
         "permuted per setup, factors +-[0.05,20] per setup and mode; merged result compared with c_1k*[G_ref;G_rov1;...] (rel 1e-10), "
         "row order with flatten_sns_names; PoSER statistics with statistics.pstdev; non-trivial = at least one factor ratio "
@@ -79,7 +79,7 @@ def judge_merge(ctx, tag, M, G, c, nref, nrov, chan_glob, reflist, rtol, sigp):
             continue
         err = np.abs(M[:, k] - E[:, k]) / np.max(np.abs(E[:, k]))
         ctx.maxi(f"{tag}: worst relative error", float(err.max()))
-        if err.max() > rtol and bad is None:
+        if not (err.max() <= rtol) and bad is None:  # (NaN-safe: a NaN entry is a mismatch)
             j = int(np.argmax(err))
             # which setup does row j belong to?  report the ratio to make the mechanism visible
             off = nref
@@ -119,6 +119,12 @@ def run_fn(ctx, rng):
     G = rng.standard_normal((ndof, nmodes)) + (1j * rng.standard_normal((ndof, nmodes)) if cplx else 0)
     mag = float(10 ** rng.uniform(-5, 3)) if rng.random() < 0.4 else 1.0  # mass-normalised shapes in SI units are of order 1e-3..1e-5
     G = G * mag
+    if nref >= 2 and rng.random() < 0.3:
+        # one reference sensor sits exactly on a node of some modes (the other references still fix the scale)
+        for k in range(nmodes):
+            if rng.random() < 0.5:
+                G[int(rng.integers(0, nref)), k] = 0.0
+        ctx.state("a reference sensor on a node of a mode")
     if mag < 1e-3:
         ctx.state("global shapes of magnitude < 1e-3")
     c = factors(rng, nset, nmodes, pm1=rng.random() < 0.1)
